@@ -14,7 +14,8 @@ PAR = "pyrtma.parser"
 CLI = "pyrtma.client"
 BACKENDS = {"pyrtma.compilers.python": "PyDefCompiler", "pyrtma.compilers.c99": "CDefCompiler",
             "pyrtma.compilers.javascript": "JSDefCompiler", "pyrtma.compilers.matlab": "MatlabDefCompiler"}
-PURE_CALLS = {"dedent", "textwrap.dedent", "join", "encode", "items", "format", "str", "sha256", "hexdigest", "repr"}
+PURE_CALLS = {"dedent", "textwrap.dedent", "join", "encode", "items", "format", "str", "sha256", "hexdigest", "repr", "isinstance", "list", "tuple"}
+BUILTIN_TYPES = {"str", "int", "float", "bool", "dict", "list", "tuple", "bytes"}
 IMPURE_ROOTS = ("time", "datetime", "random", "uuid", "os", "id", "hash", "getpid", "cwd", "absolute", "resolve", "sorted", "set", "frozenset", "reversed", "keys", "values")
 
 
@@ -37,7 +38,7 @@ def hash_roots(f, expr, depth=0, seen=None) -> Set[str]:
             return out
         defs = dataflow.definitions(f, expr.id)
         if not defs:
-            return {"free:" + expr.id}
+            return set() if expr.id in BUILTIN_TYPES else {"free:" + expr.id}
         for kind, rhs in defs:
             if kind == "param":
                 out.add("param:" + expr.id)
@@ -93,6 +94,23 @@ def hash_roots(f, expr, depth=0, seen=None) -> Set[str]:
     return {"expr:" + norm(expr)[:40]}
 
 
+def ctor_arg(ci, call, fieldname):
+    """the actual argument bound to dataclass field `fieldname` of class ci in `call` (fields declared field(init=False) take no argument)"""
+    for k in call.keywords:
+        if k.arg == fieldname:
+            return k.value
+    names = []
+    for n in ci.node.body:
+        if isinstance(n, ast.AnnAssign) and isinstance(n.target, ast.Name):
+            v = n.value
+            if isinstance(v, ast.Call) and norm(v.func).split(".")[-1] == "field" and any(k.arg == "init" and isinstance(k.value, ast.Constant) and k.value.value is False for k in v.keywords):
+                continue
+            names.append(n.target.id)
+    if fieldname in names and names.index(fieldname) < len(call.args):
+        return call.args[names.index(fieldname)]
+    return None
+
+
 def run(prog: Program, chk: Check):
     ty = Types(prog)
     chk.explanation = (
@@ -107,17 +125,62 @@ def run(prog: Program, chk: Check):
     # ---- H hash input ---------------------------------------------------------------------------------------------
     H = chk.rule("C13-H", "sha256 input closes over exactly name, id and the in-order (field name, type text) pairs", 9,
                  "a missing component means an edit does not change the hash; an extra one makes it depend on location/run")
+    self_hashing_sites = []
     sites = {"Parser.handle_message_def": ({"name", "id", "fields"}), "Parser.handle_signal": ({"name", "id"}), "Parser.handle_struct": ({"name", "fields"})}
     for fname, need in sites.items():
         f = prog.func(PAR, fname)
         params = [p for p in f.params() if p != "self"]
         dparam = params[1] if len(params) > 1 else None
         shas = [c for c in calls_in(f.node) if norm(c.func) in ("sha256", "hashlib.sha256")]
-        if len(shas) != 1:
+        ctor = [c for c in calls_in(f.node) if norm(c.func) in ("MDF", "SDF")]
+        self_hashing = None
+        if not shas and len(ctor) == 1:
+            # the definition object computes its own digest: `__post_init__: self.hash = sha256(self.raw.encode()).hexdigest()`
+            # (hash declared field(init=False)); the hashed text is then the constructor's `raw` argument
+            dci = f.module.classes.get(norm(ctor[0].func))
+            pi = dci.methods.get("__post_init__") if dci is not None else None
+            hs_ = [n for n in walk_local(pi.node) if isinstance(n, ast.Assign) and any(norm(t) == "self.hash" for t in n.targets)] if pi is not None else []
+            if len(hs_) == 1 and norm(hs_[0].value) in ("sha256(self.raw.encode()).hexdigest()", "hashlib.sha256(self.raw.encode()).hexdigest()") \
+                    and len([n for n in walk_local(pi.node) if isinstance(n, (ast.If, ast.Try, ast.Return, ast.For, ast.While))]) == 0:
+                self_hashing = (dci, pi, hs_[0])
+        if len(shas) != 1 and self_hashing is None:
             raise AnalysisError(f"anchor vanished: expected one sha256 call in {fname}, found {len(shas)}")
-        roots = {r for r in hash_roots(f.node, shas[0].args[0]) if not (r.startswith("free:") and r[5:] in f.module.imports)}
+        if self_hashing is not None:
+            ra = ctor_arg(self_hashing[0], ctor[0], "raw")
+            if ra is None:
+                raise AnalysisError(f"anchor vanished: `raw` argument of the {norm(ctor[0].func)} construction in {fname}")
+            hashed_text = ra
+            anchor_node = ctor[0]
+            self_hashing_sites.append((f, self_hashing))
+        else:
+            hashed_text = shas[0].args[0]
+            anchor_node = shas[0]
+        roots = {r for r in hash_roots(f.node, hashed_text) if not (r.startswith("free:") and r[5:] in f.module.imports)}
         comp = set()
         extra = set()
+        def pair_source(it, depth=0):
+            """does the iterable `it` yield the (name, type) pairs of the definition's fields, in definition order?  Either
+            <def>['fields'].items() itself (possibly through list()/tuple() and single-assignment locals), or - on the branch
+            where the fields entry is a plain string - a literal one-element list of a pair"""
+            if depth > 6:
+                return False
+            if isinstance(it, ast.Name):
+                ds = [rhs for k_, rhs in dataflow.definitions(f.node, it.id) if k_ != "param"]
+                return len(ds) == 1 and pair_source(ds[0], depth + 1)
+            if isinstance(it, ast.Call) and isinstance(it.func, ast.Name) and it.func.id in ("list", "tuple") and len(it.args) == 1:
+                return pair_source(it.args[0], depth + 1)
+            if isinstance(it, ast.IfExp):
+                return pair_source(it.body, depth + 1) and pair_source(it.orelse, depth + 1)
+            if isinstance(it, (ast.List, ast.Tuple)) and len(it.elts) == 1 and isinstance(it.elts[0], ast.Tuple) and len(it.elts[0].elts) == 2:
+                return True
+            if isinstance(it, ast.Call) and is_method_call(it, "items") and not it.args:
+                base = it.func.value
+                if isinstance(base, ast.Name):
+                    ds = [rhs for k_, rhs in dataflow.definitions(f.node, base.id) if k_ != "param"]
+                    base = ds[0] if len(ds) == 1 else base
+                return norm(base).replace('"', "'") == f"{dparam}['fields']"
+            return False
+
         for r in roots:
             if r == f"param:{params[0]}":
                 comp.add("name")
@@ -127,16 +190,16 @@ def run(prog: Program, chk: Check):
                 comp.add("fields")
             elif r.startswith("iter:"):
                 it = r[5:]
-                if it != f"{dparam}['fields'].items()":
+                if it != f"{dparam}['fields'].items()" and not pair_source(ast.parse(it, mode="eval").body):
                     extra.add(r)
             else:
                 extra.add(r)
         for c in sorted(need):
-            H.decide(c in comp, fkey(f, f"includes:{c}"), where(f, shas[0]), f"hashed text depends on the {c}", f"{fname}: the hashed text does not depend on the definition's {c}")
-        H.decide(not extra and comp <= need, fkey(f, "nothing-else"), where(f, shas[0]), "no other input reaches the hash",
+            H.decide(c in comp, fkey(f, f"includes:{c}"), where(f, anchor_node), f"hashed text depends on the {c}", f"{fname}: the hashed text does not depend on the definition's {c}")
+        H.decide(not extra and comp <= need, fkey(f, "nothing-else"), where(f, anchor_node), "no other input reaches the hash",
                  f"{fname}: hash input also depends on {sorted(extra | (comp - need))}")
         if "fields" in need:
-            comps = [n for n in walk_local(f.node) if isinstance(n, ast.ListComp) and any(norm(g.iter) == f"{dparam}['fields'].items()" for g in n.generators)]
+            comps = [n for n in walk_local(f.node) if isinstance(n, (ast.ListComp, ast.GeneratorExp)) and any(norm(g.iter) == f"{dparam}['fields'].items()" or pair_source(g.iter) for g in n.generators)]
             okc = len(comps) == 1
             if okc:
                 g0 = comps[0].generators[0]
@@ -144,6 +207,17 @@ def run(prog: Program, chk: Check):
                 used = {x.id for x in ast.walk(comps[0].elt) if isinstance(x, ast.Name)}
                 okc = len(tg) == 2 and set(tg) <= used and not g0.ifs
             H.decide(okc, fkey(f, "ordered-pairs"), where(f), "field list hashed as in-order `name: type` pairs of fields.items()", f"{fname}: field pairs are not hashed in definition order with both name and type")
+        if self_hashing is not None:
+            dci, pi, hst = self_hashing
+            na = ctor_arg(dci, ctor[0], "name")
+            okk = na is not None and path_of(na) == params[0]
+            if okk and norm(ctor[0].func) == "MDF":
+                tid = ctor_arg(dci, ctor[0], "type_id")
+                okk = tid is not None and norm(tid).replace('"', "'") == f"{dparam}['id']"
+            H.decide(True, fkey(f, "hexdigest"), where(pi, hst), f"{dci.name}.__post_init__ takes the hexdigest of its own raw text")
+            H.decide(okk, fkey(f, "stored-in-definition"), where(f), "the definition object is built from this text and this name (and id) and digests the text itself",
+                     f"{fname}: {dci.name} is not constructed from (raw, name[, id])")
+            continue
         # the digest stored in the definition object is this digest of this text
         hv = None
         for n in walk_local(f.node):
@@ -155,7 +229,6 @@ def run(prog: Program, chk: Check):
         a0 = shas[0].args[0]
         if isinstance(a0, ast.Call) and is_method_call(a0, "encode"):
             rawv = path_of(a0.func.value)
-        ctor = [c for c in calls_in(f.node) if norm(c.func) in ("MDF", "SDF")]
         okk = len(ctor) == 1 and len(ctor[0].args) >= 3 and path_of(ctor[0].args[0]) == rawv and path_of(ctor[0].args[1]) == hv and path_of(ctor[0].args[2]) == params[0]
         if okk and norm(ctor[0].func) == "MDF":
             tid = next((k.value for k in ctor[0].keywords if k.arg == "type_id"), ctor[0].args[3] if len(ctor[0].args) > 3 else None)
@@ -168,6 +241,8 @@ def run(prog: Program, chk: Check):
                 tg = n.targets if isinstance(n, ast.Assign) else ([n.target] if isinstance(n, (ast.AugAssign, ast.AnnAssign)) else [])
                 for t in tg:
                     if isinstance(t, ast.Attribute) and t.attr in ("hash", "raw") and mod.name.startswith("pyrtma.") and (mod.name == PAR or "compilers" in mod.name or mod.name == "pyrtma.compile"):
+                        if any(n is sh_[2] for _, sh_ in self_hashing_sites):
+                            continue  # the one self-digest store accepted above
                         H.bad(fkey(f, n), where(f, n), f"{f.qual} rewrites a definition's {t.attr}")
 
     # ---- P every back end prints that value ---------------------------------------------------------------------------
